@@ -13,7 +13,7 @@ FIXTURES = os.path.join(VERIF_DIR, "fixtures")
 
 REGISTRY: dict[str, Callable[[Run, Program], None]] = {}
 CONTROLS: dict[str, list[tuple[str, Callable[[Run, Program], object], list[tuple[str, str]]]]] = {}
-NOT_APPLICABLE = {"C01", "C10", "C15"}
+NOT_APPLICABLE = {"C01", "C10"}
 
 
 def prop(pid: str):
@@ -593,6 +593,24 @@ def check_c17(run: Run, prog: Program) -> None:
     run.stats.update({"affine_sinks": n1, "measure_returns": n2})
 
 
+# ================================================================================================ C15
+@prop("C15")
+def check_c15(run: Run, prog: Program) -> None:
+    from geolint import quadforms
+
+    run.title = "Degenerate quadrics split into their components; conics meet in 4 common points"
+    run.clause = (
+        "decides TWO necessary conditions, as polynomial identities read off the source (E19.deg): (1) Conic.from_lines and QuadricTensor.from_planes build a multiple of "
+        "g h^T + h g^T - the only symmetric matrix whose quadric is exactly the pair g, h - so 'their components are exactly that pair' is possible at all; (2) in "
+        "Conic.intersect(conic) the four coefficients handed to roots() are, coefficient by coefficient, det(s A + B) for the member s A + B of the pencil that is then "
+        "decomposed: the conic whose components are intersected is degenerate for every root. NOT decided: components() itself (square-root sign choices, the pivot, the "
+        "NotReducible test), is_degenerate, which root is taken, and that every common point is found - all value-level."
+    )
+    n = quadforms.rule_degenerate(run, prog)
+    run.floor("degenerate-quadric formulas read (found, decided or not)", n, 3)
+    run.stats["degenerate_formulas"] = n
+
+
 # ================================================================================================ C20
 @prop("C20")
 def check_c20(run: Run, prog: Program) -> None:
@@ -627,7 +645,8 @@ def check_c13(run: Run, prog: Program) -> None:
         "the n-ball; and every number a quadric class returns (radius, area, volume, angles ...) has homogeneity degree 0 in the matrix and in "
         "every argument (E5) - necessary for 'return the parameters'. (E19) The loci: the matrix that Circle, Ellipse, Sphere (dimension 2 and 3) and Cone (axis parallel to z, "
         "finite height and the cylinder limit) hand to QuadricTensor.__init__, read off the constructor as a table of polynomials in the centre coordinates and radii, "
-        "is proportional entry by entry to the matrix of the Cartesian locus. NOT decided: from_points, from_tangent, from_foci, from_crossratio, the rotation of a cone "
+        "is proportional entry by entry to the matrix of the Cartesian locus; Conic.from_points and Conic.from_crossratio, read the same way, contain their five (four) points as a "
+        "polynomial identity p^T M p = 0 and are symmetric. NOT decided: from_tangent, from_foci, that from_crossratio agrees with from_points, the rotation of a cone "
         "whose axis is not parallel to z, center, radius and foci - those are numeric identities between a constructor's matrix and an accessor."
     )
     n = polyform.rule_measures(run, prog)
@@ -636,6 +655,8 @@ def check_c13(run: Run, prog: Program) -> None:
 
     nq = quadforms.rule_quadrics(run, prog)
     run.floor("parametrised quadric constructors read (cases found, decided or not)", nq, 5)
+    nc = quadforms.rule_conics(run, prog)
+    run.floor("conic constructors through points read", nc, 2)
     # the accessors and measures of a quadric are functions of the quadric, not of the scale of its matrix (degree 0, E5)
     from geolint import homog
 
